@@ -12,7 +12,7 @@ From Coq Require Import List NArith Arith Bool.
 From SNT Require Import Base.Outcome Automata.DfaData Automata.DfaDataProofs
   Automata.Tokenizer Automata.TokenizerRun Automata.TokenizerMunch Automata.TokenizerTheorems
   Gen.ProdDFA Decoder.Payload Decoder.Events Decoder.EventsProofs Decoder.EventsTheorems
-  Decoder.PollLoop Automata.ProdNfaData Automata.ProdCheck Automata.ProdCheckProofs Automata.ProdInstances Automata.ProdLanguage Gen.ProdNFA.
+  Decoder.PollLoop.
 Import ListNotations.
 
 Section Generic.
@@ -71,7 +71,7 @@ Section Generic.
   Qed.
 
   (* none lost, duplicated or reordered *)
-  Theorem C03_no_loss : forall s : list N,
+  Lemma C03_no_loss : forall s : list N,
     concat (map span (fst (munch s))) ++ snd (munch s) = s /\
     Forall (fun t => span t <> []) (fst (munch s)).
   Proof.
@@ -82,7 +82,7 @@ Section Generic.
   Qed.
 
   (* what `munch` is: its defining equation (no fuel) and the meaning of its two searches *)
-  Theorem C03_munch_unfold : forall s : list N,
+  Lemma C03_munch_unfold : forall s : list N,
     munch s =
     match munch1 s with
     | None => ([], s)
@@ -90,12 +90,12 @@ Section Generic.
     end.
   Proof. exact (munch_unfold Q Item q0 delta accepting terminal decode_item). Qed.
 
-  Theorem C03_first_stop : forall (s : list N) (n : nat),
+  Lemma C03_first_stop : forall (s : list N) (n : nat),
     first_stop s = Some n <->
     (1 <= n <= length s)%nat /\ stop_at s n = true /\ forall k, (1 <= k < n)%nat -> stop_at s k = false.
   Proof. exact (first_stop_some Q q0 delta accepting terminal). Qed.
 
-  Theorem C03_longest_acc : forall (s : list N) (m k : nat),
+  Lemma C03_longest_acc : forall (s : list N) (m k : nat),
     longest_acc s m = Some k <->
     (1 <= k <= m)%nat /\ acc_at s k = true /\ forall j, (k < j <= m)%nat -> acc_at s j = false.
   Proof. intros s m k. exact (longest_acc_some Q q0 delta accepting s m k). Qed.
@@ -103,7 +103,7 @@ Section Generic.
   (* leftmost-LONGEST proper: when `terminal` states have no successor (checked for the
      production automata below), an item token is the longest recognised prefix of the whole
      remaining stream, and a raw token means no prefix of it is a recognised sequence *)
-  Theorem C03_longest :
+  Lemma C03_longest :
     (forall q b, terminal q = true -> delta q b = None) ->
     forall (s : list N) t k, munch1 s = Some (t, k) ->
       (acc_at s k = true -> forall j, (k < j <= length s)%nat -> acc_at s j = false) /\
@@ -118,7 +118,7 @@ Section Generic.
      stream is accepted, the raw token is its LONGEST LIVE PREFIX (every proper extension is dead),
      or its first byte alone when no recognised sequence starts with that byte.  Bytes inside such a
      dead prefix are not re-tokenised: `ESC [ 1 A` on the command automaton is Raw(ESC [ 1) then `A`. *)
-  Theorem C03_raw_span : forall (s : list N) t k,
+  Lemma C03_raw_span : forall (s : list N) t k,
     munch1 s = Some (t, k) -> acc_at s k = false ->
     t = TRaw (firstn k s) /\
     ((dead_at s k = false /\ dead_at s (S k) = true) \/ (k = 1%nat /\ dead_at s 1 = true)).
@@ -128,7 +128,7 @@ Section Generic.
      its payload decoder makes of it; when the decoder rejects the bytes (decode_item = None) the SAME
      span surfaces as one raw token and a shorter complete sequence is not reconsidered
      (`ESC [ 0 ; 0 R` is Raw(ESC[0;0R), not alt+[ followed by `0;0R`). *)
-  Theorem C03_accepted_span : forall (s : list N) t k,
+  Lemma C03_accepted_span : forall (s : list N) t k,
     munch1 s = Some (t, k) -> acc_at s k = true ->
     exists q, run (firstn k s) = Some q /\ accepting q = true /\
       match decode_item q (firstn k s) with
@@ -150,7 +150,7 @@ Section Prod.
   Notation pmunch := (munch N Item (d_start d) (d_delta d) (d_accepting d) (d_terminal d) decode_item).
   Notation pfeed := (feed N Item (d_start d) (d_delta d) (d_accepting d) (d_terminal d) decode_item).
 
-  Theorem C03_prod : forall (chunks : list (list N)) (fuel : nat),
+  Lemma C03_prod : forall (chunks : list (list N)) (fuel : nat),
     (length (concat chunks) + 3 <= fuel)%nat ->
     exists s',
       pfeed fuel (init (d_start d)) chunks = Ok (fst (pmunch (concat chunks)), s') /\
@@ -168,71 +168,6 @@ Section Prod.
     destruct d_is_prod as [-> | ->]; apply terminal_ok_sound; vm_compute; reflexivity.
   Qed.
 End Prod.
-
-(* ------------------------------------------------------------------------- *)
-(* Leftmost-longest with respect to the LANGUAGES of the production patterns.
-
-   Gen/ProdNFA.v is the NFA the crate builds from the registered matchers right before `compile()`
-   (NFA::choice of the tagged patterns); C15_production_event / _command prove that the dumped DFA
-   is its subset construction.  Composed with C03_munch / C03_longest / C03_raw_span /
-   C03_accepted_span: for every byte stream and every partition into reads the events are a
-   tokenisation `LMunch` in which every token is characterised ON THE NFA (ProdLanguage.LangTok):
-     - if the NFA accepts the token's bytes: no longer prefix of the remaining stream is accepted by
-       the NFA, and the token is what decode_item makes of a state whose tag list is exactly the set
-       of tags of the NFA states reached by those bytes (the code uses the first of that list, in the
-       order of its BTreeSet<MatcherTag>: literal items, then matchers by index);
-     - otherwise no prefix of the remaining stream is accepted by the NFA and the token is raw: the
-       longest prefix on which the NFA is still live (or one byte when no pattern starts with it);
-     - what stays pending at the end is live on the NFA in all its prefixes. *)
-Section ProdLang.
-  Variable Item : Type.
-  Variable decode_item : N -> list N -> option Item.
-
-  Lemma event_terminal_ok : terminal_ok (DfaData.compile event_data) = true.
-  Proof. vm_compute. reflexivity. Qed.
-  Lemma command_terminal_ok : terminal_ok (DfaData.compile command_data) = true.
-  Proof. vm_compute. reflexivity. Qed.
-
-  Theorem C03_prod_language_event : forall (chunks : list (list N)) (fuel : nat),
-    ProdCheckProofs.bytes (concat chunks) ->
-    (length (concat chunks) + 3 <= fuel)%nat ->
-    exists ts s',
-      feed N Item (d_start event_dfa) (d_delta event_dfa) (d_accepting event_dfa) (d_terminal event_dfa)
-           decode_item fuel (init (d_start event_dfa)) chunks = Ok (ts, s') /\
-      LMunch event_nfa_data event_data decode_item (concat chunks) ts (sbuf s').
-  Proof.
-    intros chunks fuel Hb Hf. rewrite event_dfa_eq.
-    set (D := DfaData.compile event_data).
-    destruct (feed_munch N Item (d_start D) (d_delta D) (d_accepting D) (d_terminal D) decode_item chunks fuel Hf)
-      as (s' & HF & Hp & _).
-    exists (fst (munch N Item (d_start D) (d_delta D) (d_accepting D) (d_terminal D) decode_item (concat chunks))), s'.
-    split; [exact HF|]. rewrite Hp.
-    apply (Munch_language event_nfa_data event_data event_subset_construction event_terminal_ok decode_item _ _ _ Hb).
-    apply munch_Munch.
-  Qed.
-
-  Theorem C03_prod_language_command : forall (chunks : list (list N)) (fuel : nat),
-    ProdCheckProofs.bytes (concat chunks) ->
-    (length (concat chunks) + 3 <= fuel)%nat ->
-    exists ts s',
-      feed N Item (d_start command_dfa) (d_delta command_dfa) (d_accepting command_dfa) (d_terminal command_dfa)
-           decode_item fuel (init (d_start command_dfa)) chunks = Ok (ts, s') /\
-      LMunch command_nfa_data command_data decode_item (concat chunks) ts (sbuf s').
-  Proof.
-    intros chunks fuel Hb Hf. rewrite command_dfa_eq.
-    set (D := DfaData.compile command_data).
-    destruct (feed_munch N Item (d_start D) (d_delta D) (d_accepting D) (d_terminal D) decode_item chunks fuel Hf)
-      as (s' & HF & Hp & _).
-    exists (fst (munch N Item (d_start D) (d_delta D) (d_accepting D) (d_terminal D) decode_item (concat chunks))), s'.
-    split; [exact HF|]. rewrite Hp.
-    apply (Munch_language command_nfa_data command_data command_subset_construction command_terminal_ok decode_item _ _ _ Hb).
-    apply munch_Munch.
-  Qed.
-End ProdLang.
-
-(* non-vacuity: the hypothesis holds of real streams, e.g. the crate's test_reschedule input *)
-Example C03_prod_language_nonvacuous : ProdCheckProofs.bytes [27; 79; 84]%N.
-Proof. intros c [<-|[<-|[<-|[]]]]; reflexivity. Qed.
 
 (* the public wrappers: TTYEventDecoder / TTYCommandDecoder = the tokeniser plus the Raw wrapper
    (an EMPTY reject would make `decode` return None and end the caller's loop early; raw spans are
@@ -272,7 +207,7 @@ Qed.
    ends poll with that error, and the events the decoder would still produce from the rest of the read
    buffer are not delivered (the bytes were taken from the tty and live only in poll's stack buffer).
    The handlers of the crate write to the in-memory write queue only and do not fail. *)
-Theorem C03_poll_loop_handler_error : forall (d : dfa) (ids : list N) (tb : dtabs)
+Lemma C03_poll_loop_handler_error : forall (d : dfa) (ids : list N) (tb : dtabs)
     (pre : tok pitem -> list (tok pitem)) (handle : tok pitem -> option bool)
     fuel s buf queue ts s' rest,
   tty_decode_into d (payload_at ids tb) fuel s buf = Ok (ts, s', rest) ->
@@ -306,6 +241,30 @@ Definition ex_feed := feed N N (d_start event_dfa) (d_delta event_dfa) (d_accept
 Definition ex_munch := munch N N (d_start event_dfa) (d_delta event_dfa) (d_accepting event_dfa) (d_terminal event_dfa) ex_item.
 Definition spans (r : outcome (list (tok N) * st N N)) : list (list N) :=
   match r with Ok (ts, _) => map span ts | _ => [] end.
+
+(* C03_chunking from a state in the middle of a sequence: after the read `ESC [` (buffer ESC [, candidate
+   alt+[), the reads `1`, `;5`, `` and `R` give what the single read `1;5R` gives *)
+Example C03_chunking_nonvacuous :
+  match ex_feed 10%nat (init 0) [[27; 91]] with
+  | Ok (_, s) =>
+      sres s = [] /\ sbuf s = [27; 91] /\ Nat.leb (fuel_for s (length (concat [[49]; [59; 53]; []; [82]]))) 20 = true /\
+      spans (ex_feed 20%nat s [[49]; [59; 53]; []; [82]]) = [[27; 91; 49; 59; 53; 82]] /\
+      spans (ex_feed 20%nat s [[49; 59; 53; 82]]) = [[27; 91; 49; 59; 53; 82]]
+  | _ => False
+  end.
+Proof. vm_compute. repeat split; reflexivity. Qed.
+
+(* C03_poll_loop with a handler that passes every event on and a loop that adds nothing: the queue after
+   the reads `ESC O` and `T` is the two events of the stream *)
+Example C03_poll_loop_nonvacuous :
+  let payload := payload_at event_matcher_ids (mk_dtabs decmode_codes decstatus_codes dec_cube dec_greys dec_colors) in
+  deliver_all (fun _ => []) (fun _ => Some false) (fst (t_munch event_dfa payload [27; 79; 84]))
+    = Some (fst (t_munch event_dfa payload [27; 79; 84])) /\
+  match poll_feed event_dfa payload (fun _ => []) (fun _ => Some false) 10 (t_init event_dfa) [[27; 79]; [84]] [] with
+  | Ok (_, q) => map span q = [[27; 79]; [84]]
+  | _ => False
+  end.
+Proof. vm_compute. split; reflexivity. Qed.
 
 (* the crate's test_reschedule stream `ESC O T`, cut after `ESC O`: the longer candidates
    (ESC O P ...) fail on `T`, the longest complete one (ESC O = alt+shift+o) is emitted and `T`
